@@ -46,6 +46,8 @@ func runC01(c *Ctx, r *Report) {
 	c09R7(c, r, "C01.R10") // the UDP virtual connection hands out exactly the datagram's bytes, however it is split into reads
 	c08R6(c, r, "C01.R12") // the client's first byte is the first byte of the stream: a new connection's matching buffer starts empty (a recycled slice keeps the length it was returned with)
 	c01TeeRead(c, r, "C01.R13")
+	c02HandlersCompile(c, r, "C01.R15") // a branch's handlers read the stream in the configured order (the second one behind the first one's wrapping)
+	c13R3(c, r, "C01.R16")              // a handed-off connection keeps its matching buffer: the bytes it still has to replay are not recycled under it
 	c09R6(c, r, "C01.R14") // UDP: every queued datagram is its own record and buffer - a burst is delivered datagram by datagram, none read twice or overwritten
 	c13R6(c, r, "C01.R8") // the consumer of a wrapped listener is a "next component" too: what it is handed reads through the layer4 connection
 }
